@@ -44,10 +44,14 @@ structure St where
   cancels : List (Int × String × Rat × Rat) := []
   taxUsed : List (Int × String) := []
 
+/-- the fee an emitted line carries: the row's "Fees & Comm" when positive; absent, zero or negative → none
+    (`format_trade` writes a FEES clause only for a positive amount; the DSL has no signed amounts) -/
+def feeOf (f : Option Rat) : Rat := if f.getD 0 > 0 then f.getD 0 else 0
+
 /-- second pass, one row (`dividend_taxes.remove`: only the first dividend of a (date, symbol) gets the tax) -/
 def step (all : List Row) (s : St) : Row → St
-  | .buy d sym q p f => { s with items := s.items ++ [.buy d sym q p (f.getD 0)] }
-  | .sell d sym q p f => { s with items := s.items ++ [.sell d sym q p (f.getD 0)] }
+  | .buy d sym q p f => { s with items := s.items ++ [.buy d sym q p (feeOf f)] }
+  | .sell d sym q p f => { s with items := s.items ++ [.sell d sym q p (feeOf f)] }
   | .cancelSell d sym q p => { s with cancels := s.cancels ++ [(d, sym, q, p)] }
   | .dividend d sym (some a) =>
     let first := !(s.taxUsed.contains (d, sym))
